@@ -50,6 +50,7 @@ type Engine struct {
 	decls    map[*types.Func]*declInfo
 	ghosts   map[*types.Func]*ghostInfo
 	ghostVars map[*types.Var]bool
+	bumpMemo  map[*types.Func]map[string]bool
 	noEffectRe []*regexp.Regexp
 	argsOnlyRe []*regexp.Regexp // callees that may only write through their arguments
 	pureRe     []pureSpec        // callees that are deterministic functions of their arguments
@@ -78,7 +79,7 @@ type Engine struct {
 func newEngine() *Engine {
 	return &Engine{byPath: map[string]*packages.Package{}, specs: map[string]*PkgSpec{}, specDirs: map[string]*PkgSpec{},
 		units: map[*types.Func]*FuncUnit{}, decls: map[*types.Func]*declInfo{}, ghosts: map[*types.Func]*ghostInfo{},
-		lemmaPos: map[*Lemma]*declInfo{}, ghostVars: map[*types.Var]bool{}, typeTags: map[string]int{}, parallel: 12, timeout: 10, maxVC: 4 << 20,
+		lemmaPos: map[*Lemma]*declInfo{}, ghostVars: map[*types.Var]bool{}, bumpMemo: map[*types.Func]map[string]bool{}, typeTags: map[string]int{}, parallel: 12, timeout: 10, maxVC: 4 << 20,
 		mirrorSrc: map[string]string{}}
 }
 
@@ -356,6 +357,9 @@ func (eng *Engine) checkContract(u *FuncUnit) {
 	for _, cl := range u.C.Defines {
 		eng.checkClause(u.Pkg, cl, pos, u, sig.Results().Len() > 0)
 	}
+	for _, pc := range u.C.PreCalls {
+		eng.checkClause(u.Pkg, pc.Cl, u.Decl.Body.Rbrace, u, false)
+	}
 	// loops
 	var loops []ast.Stmt
 	ast.Inspect(u.Decl.Body, func(n ast.Node) bool {
@@ -548,16 +552,19 @@ func (eng *Engine) inModule(fn *types.Func) bool {
 // noEffect lists calls that have no effect on modelled state: logging,
 // metrics, string formatting.
 func (eng *Engine) noEffect(fn *types.Func) bool {
-	if fn == nil || fn.Pkg() == nil {
+	if fn == nil {
 		return false
 	}
-	path := fn.Pkg().Path()
 	full := fn.FullName()
 	for _, re := range eng.noEffectRe {
 		if re.MatchString(full) {
 			return true
 		}
 	}
+	if fn.Pkg() == nil {
+		return false
+	}
+	path := fn.Pkg().Path()
 	switch {
 	case strings.HasSuffix(path, "oasis-core/go/common/logging"):
 		return true
